@@ -202,4 +202,9 @@ class Facts:
 def load(config="lib"):
     path, cached, secs = run_driver(config)
     H = os.path.basename(path).split("-")[-1][:-5]
-    return Facts(path, H), cached, secs
+    global CURRENT
+    CURRENT = Facts(path, H)
+    return CURRENT, cached, secs
+
+
+CURRENT = None      # the fact base of the tree under analysis (for helpers that need a callee's body but are not handed the context)
